@@ -7,7 +7,7 @@ wt=$1; shift
 cd $wt || exit 2
 echo "== patch =="; cat patch.diff | head -60
 echo "== demo with change =="; go test -count=1 -run 'TestSeeded' . 2>&1 | tail -3
-git stash push -q -- $(git diff --name-only | grep -v verif_contracts.go) ; echo "== demo without change =="; go test -count=1 -run 'TestSeeded' . 2>&1 | tail -2; git stash pop -q
+git apply -R patch.diff; echo "== demo without change =="; go test -count=1 -run 'TestSeeded' . 2>&1 | tail -2; git apply patch.diff
 mv seeded_demo_test.go /tmp/seeded_demo_test.go.bak; echo "== suite with change =="; go test -count=1 . 2>&1 | tail -1; mv /tmp/seeded_demo_test.go.bak seeded_demo_test.go
 cd /verif
 if [ -n "$(git -C /repo status --porcelain)" ]; then echo "REFUSING: /repo has uncommitted changes (commit them first; this script reverts the seeded patch)"; exit 2; fi
